@@ -29,7 +29,7 @@ def session(rng, kind):
     sizes = {"small": [0, 1, 5, 30] + around[:5], "big": [0, 10, 200] + around, "rot": [3, 20, 60]}[kind if kind in ("small", "big", "rot") else "small"]
     for i, n in enumerate(sizes):
         recs["r%d" % i] = (bytes([65 + i]) * (1 if n else 0) + bytes(rng.randrange(256) for _ in range(max(0, n - 1)))).hex()
-    toks = list(recs)
+    toks = list(recs) + ["NIL"]          # the nil record (appended as nil, replayed as nil)
     maxsize = {"small": rng.choice([1, 64, 1024]), "big": rng.choice([64, 4096, 128 << 20]), "rot": 40, "many": 1}[kind] if kind != "many" else 1
     ops = []
     n = {"small": 30, "big": 14, "rot": 40, "many": 130}[kind]
@@ -58,7 +58,10 @@ def run(tier):
     def rec(s):
         name, cfg = s
         work = common.scratch("C07-" + name)
-        root = os.path.join(work, "wal")
+        # every other log lives in a directory whose name contains glob metacharacters
+        globby = sum(map(ord, name)) % 2 == 0
+        sfx = "[1]*?" if globby else ""
+        root = os.path.join(work, "wal" + sfx)
         trace = os.path.join(work, "trace.ndjson")
         inp = dict(cfg, dir=root)
         with open(os.path.join(work, "in.json"), "w") as f:
@@ -75,7 +78,7 @@ def run(tier):
         # replay every image
         dirs = []
         for i, p in enumerate(pts):
-            d = os.path.join(work, "img", "p%05d" % i)
+            d = os.path.join(work, "img", "p%05d%s" % (i, sfx))
             crash.materialize(p.snap, root, d)
             os.makedirs(d, exist_ok=True)
             dirs.append(d)
@@ -108,7 +111,7 @@ def run(tier):
                     lens = lens[::5] + [size]
                 cdirs = []
                 for L in lens:
-                    d = os.path.join(work, "cut", "c%06d" % L)
+                    d = os.path.join(work, "cut", "c%06d%s" % (L, sfx))
                     crash.materialize(pts[-1].snap, root, d)
                     with open(os.path.join(d, os.path.relpath(last, root)), "r+b") as f:
                         f.truncate(L)
